@@ -158,20 +158,38 @@ def build_weechess(profile="release"):
 # ------------------------------------------------------------------------------------------------
 # correspondence
 
-def run_lines(exe, lines, timeout=3600):
-    rc, out, err = run([exe] if isinstance(exe, str) else exe, input_text="\n".join(lines) + "\n", timeout=timeout)
-    return out.split("\n")[:-1] if out.endswith("\n") else out.split("\n"), rc, err
+def run_lines(exe, lines, timeout=3600, per_request_timeout=None):
+    """one process for the whole batch; if it hangs or dies, the unanswered requests are re-run one
+    by one (each with its own time limit) so that the culprit is identified: `<hang>` / `<died>`"""
+    cmd = [exe] if isinstance(exe, str) else exe
+    inp = "\n".join(lines) + "\n"
+    try:
+        p = subprocess.run(cmd, input=inp, capture_output=True, text=True, env=ENV, timeout=timeout)
+        out, rc, err = p.stdout, p.returncode, p.stderr
+    except subprocess.TimeoutExpired as e:
+        out = e.stdout.decode() if isinstance(e.stdout, bytes) else (e.stdout or "")
+        rc, err = -9, "timeout"
+    res = out.split("\n")[:-1] if out.endswith("\n") else [l for l in out.split("\n") if l != ""]
+    if len(res) < len(lines) and per_request_timeout:
+        for r in lines[len(res):]:
+            try:
+                p = subprocess.run(cmd, input=r + "\n", capture_output=True, text=True, env=ENV, timeout=per_request_timeout)
+                o = p.stdout.strip("\n")
+                res.append(o if o else "<died>")
+            except subprocess.TimeoutExpired:
+                res.append("<hang>")
+    return res, rc, err
 
 
-def run_lines_parallel(exe, lines, jobs=14, timeout=3600):
+def run_lines_parallel(exe, lines, jobs=14, timeout=3600, per_request_timeout=None):
     """split the request list round-robin over `jobs` processes (the model is much slower than the real code on searches)"""
     from concurrent.futures import ThreadPoolExecutor
     jobs = max(1, min(jobs, len(lines) // 4 or 1))
     if jobs == 1:
-        return run_lines(exe, lines, timeout)
+        return run_lines(exe, lines, timeout, per_request_timeout)
     chunks = [lines[i::jobs] for i in range(jobs)]
     with ThreadPoolExecutor(max_workers=jobs) as ex:
-        results = list(ex.map(lambda c: run_lines(exe, c, timeout), chunks))
+        results = list(ex.map(lambda c: run_lines(exe, c, timeout, per_request_timeout), chunks))
     outs = [None] * len(lines)
     rc_all, err_all = 0, ""
     for j, (o, rc, err) in enumerate(results):
